@@ -53,13 +53,19 @@ def prove_linear_schema(coefs, led: Ledger):
     led.record(f"pyvc.lemmas::{name}.step", "lemma", st, be, secs)
 
 
-def split_sum_instance(arr, k, n):
-    """0 <= k <= n  ==>  asum(a, n) == asum(a, k) + asum(j -> a[k+j], n-k)."""
+def split_sum_instance(arr, k, n, tail_view=None):
+    """0 <= k <= n  ==>  asum(a, n) == asum(a, k) + asum(j -> a[k+j], n-k).
+
+    When `tail_view` (an SArr equal to a[k:]) is given, the instance is stated directly on that view (the link
+    between the two spellings of the tail is the point-wise linear instance, added as well)."""
     a = arr.as_z3_array() if isinstance(arr, SArr) else arr
     j = z3.Int("j!split")
     tail = z3.Lambda([j], a[j + k])
     _used.add("split")
-    return z3.Implies(z3.And(0 <= k, k <= n), asum(a, n) == asum(a, k) + asum(tail, n - k))
+    inst = z3.Implies(z3.And(0 <= k, k <= n), asum(a, n) == asum(a, k) + asum(tail, n - k))
+    if tail_view is not None:
+        return z3.And(inst, linear_sum_instance([(1, tail), (-1, tail_view)], n - k))
+    return inst
 
 
 def prove_split_schema(led: Ledger):
